@@ -3,6 +3,8 @@
   `hrefl n k u β w` is `(I - u uᵀ/β) w` restricted to the rows `k..n-1`.
 -/
 import Mathlib.Tactic.LinearCombination
+import Mathlib.Tactic.Tauto
+import Mathlib.Algebra.Order.BigOperators.Group.Finset
 import TfelVerif.C07.Tiny
 
 set_option linter.unusedSectionVars false
@@ -198,5 +200,404 @@ theorem colsUpd_spec (n k : Nat) (hk : k ≤ n) (β : K) (a1 : Mat K) : ∀ cnt 
         refine ⟨h3, h4, ?_⟩
         by_contra h6
         exact h1 ⟨h3, by omega⟩
+
+/-! ### one step of `QRDecomp::exe` -/
+
+/-- `alpha` of step `k` -/
+def qAlpha (sqrt : K → K) (n k : Nat) (a : Mat K) : K :=
+  if 0 < a.get k k then -(enorm sqrt a k k n) else enorm sqrt a k k n
+
+/-- `beta[k]` of step `k` -/
+def qBeta (sqrt : K → K) (n k : Nat) (a : Mat K) : K :=
+  qAlpha sqrt n k a * qAlpha sqrt n k a - qAlpha sqrt n k a * a.get k k
+
+/-- the matrix after `a(k,k) -= alpha` : its column `k` (rows `≥ k`) is the Householder vector -/
+def qA1 (sqrt : K → K) (n k : Nat) (a : Mat K) : Mat K := a.set k k (a.get k k - qAlpha sqrt n k a)
+
+theorem qrStep_rdiag (sqrt : K → K) (n k : Nat) (s : QRState K) :
+    (qrStep sqrt n k s).rdiag = s.rdiag.set k (qAlpha sqrt n k s.a) := rfl
+
+theorem qrStep_beta (sqrt : K → K) (n k : Nat) (s : QRState K) :
+    (qrStep sqrt n k s).beta = s.beta.set k (qBeta sqrt n k s.a) := rfl
+
+theorem qrStep_a_eq (sqrt : K → K) (n k : Nat) (s : QRState K) :
+    (qrStep sqrt n k s).a =
+      forRange (k + 1) (n - (k + 1))
+        (fun j (a : Mat K) =>
+          forRange k (n - k)
+            (fun i (a' : Mat K) => a'.set i j (a'.get i j - gammaOf n k (qBeta sqrt n k s.a) a j * a'.get i k)) a)
+        (qA1 sqrt n k s.a) := by
+  unfold qrStep
+  simp only [Mat.tab_eq, sumTo_eq]
+  by_cases h : k + 1 ≠ n
+  · rw [if_pos h]
+    rfl
+  · rw [if_neg h]
+    have h0 : n - (k + 1) = 0 := by omega
+    rw [h0]
+    rfl
+
+theorem qrStep_a (sqrt : K → K) (n k : Nat) (hk : k < n) (s : QRState K) (r c : Nat) :
+    (qrStep sqrt n k s).a.get r c =
+      if (k ≤ r ∧ r < n) ∧ (k < c ∧ c < n) then
+        (qA1 sqrt n k s.a).get r c -
+          gammaOf n k (qBeta sqrt n k s.a) (qA1 sqrt n k s.a) c * (qA1 sqrt n k s.a).get r k
+      else (qA1 sqrt n k s.a).get r c := by
+  have hcs := colsUpd_spec n k (le_of_lt hk) (qBeta sqrt n k s.a) (qA1 sqrt n k s.a) (n - (k + 1)) r c
+  have hkn : k + 1 + (n - (k + 1)) = n := by omega
+  rw [hkn] at hcs
+  rw [qrStep_a_eq, hcs]
+  have e : ((k ≤ r ∧ r < n) ∧ (k + 1 ≤ c ∧ c < n)) ↔ ((k ≤ r ∧ r < n) ∧ (k < c ∧ c < n)) := by omega
+  simp only [e]
+
+/-! ### the Householder vector and the transformed matrix -/
+
+/-- what the code needs from the square root -/
+structure SqrtOK (sqrt : K → K) : Prop where
+  nonneg : ∀ t, 0 ≤ t → 0 ≤ sqrt t
+  sq : ∀ t, 0 ≤ t → sqrt t * sqrt t = t
+
+theorem dotFrom_head (n k : Nat) (hk : k < n) (u w : Nat → K) :
+    dotFrom n k u w = u k * w k + dotFrom n (k + 1) u w := by
+  unfold dotFrom
+  have h1 : n - k = (n - (k + 1)) + 1 := by omega
+  rw [h1, sum_range_succ', Nat.add_zero, add_comm]
+  congr 1
+  apply sum_congr rfl
+  intro t _
+  have : k + (t + 1) = k + 1 + t := by omega
+  rw [this]
+
+theorem dotFrom_self_nonneg (n k : Nat) (w : Nat → K) : 0 ≤ dotFrom n k w w := by
+  unfold dotFrom
+  exact sum_nonneg (fun t _ => mul_self_nonneg _)
+
+theorem qAlpha_sq {sqrt : K → K} (hs : SqrtOK sqrt) (n k : Nat) (a : Mat K) :
+    qAlpha sqrt n k a * qAlpha sqrt n k a = dotFrom n k (fun i => a.get i k) (fun i => a.get i k) := by
+  have he : enorm sqrt a k k n * enorm sqrt a k k n = dotFrom n k (fun i => a.get i k) (fun i => a.get i k) := by
+    unfold enorm
+    rw [sumTo_eq]
+    have h0 := dotFrom_self_nonneg n k (fun i => a.get i k)
+    unfold dotFrom at h0 ⊢
+    exact hs.sq _ h0
+  unfold qAlpha
+  split_ifs
+  · rw [neg_mul_neg, he]
+  · exact he
+
+/-- `beta[k] > 0` as soon as `alpha ≠ 0` (the sign of `alpha` is opposite to that of `a(k,k)`) -/
+theorem qBeta_pos {sqrt : K → K} (hs : SqrtOK sqrt) (n k : Nat) (a : Mat K)
+    (hα : qAlpha sqrt n k a ≠ 0) : 0 < qBeta sqrt n k a := by
+  have he : 0 ≤ enorm sqrt a k k n := by
+    unfold enorm
+    rw [sumTo_eq]
+    have h0 := dotFrom_self_nonneg n k (fun i => a.get i k)
+    unfold dotFrom at h0
+    exact hs.nonneg _ h0
+  unfold qBeta
+  unfold qAlpha at hα ⊢
+  split_ifs at hα ⊢ with h
+  · have h1 : 0 < enorm sqrt a k k n := lt_of_le_of_ne he (fun e => hα (by rw [← e, neg_zero]))
+    nlinarith [mul_pos h1 h1, mul_pos h1 h]
+  · have h1 : 0 < enorm sqrt a k k n := lt_of_le_of_ne he (fun e => hα e.symm)
+    have h2 : a.get k k ≤ 0 := not_lt.mp h
+    nlinarith [mul_pos h1 h1, mul_nonneg he (neg_nonneg.mpr h2)]
+
+theorem qA1_get (sqrt : K → K) (n k : Nat) (a : Mat K) (r c : Nat) :
+    (qA1 sqrt n k a).get r c = if r = k ∧ c = k then a.get k k - qAlpha sqrt n k a else a.get r c := rfl
+
+/-- column `k` of the matrix after step `k` (the Householder vector on the rows `≥ k`) -/
+theorem qrStep_col (sqrt : K → K) (n k : Nat) (hk : k < n) (s : QRState K) (i : Nat) :
+    (qrStep sqrt n k s).a.get i k = (qA1 sqrt n k s.a).get i k := by
+  rw [qrStep_a sqrt n k hk, if_neg (by omega)]
+
+/-- `uᵀu = 2β` -/
+theorem householder_norm {sqrt : K → K} (hs : SqrtOK sqrt) (n k : Nat) (hk : k < n) (a : Mat K) :
+    dotFrom n k (fun i => (qA1 sqrt n k a).get i k) (fun i => (qA1 sqrt n k a).get i k) =
+      2 * qBeta sqrt n k a := by
+  have hsq := qAlpha_sq hs n k a
+  rw [dotFrom_head n k hk] at hsq ⊢
+  have e : dotFrom n (k + 1) (fun i => (qA1 sqrt n k a).get i k) (fun i => (qA1 sqrt n k a).get i k) =
+      dotFrom n (k + 1) (fun i => a.get i k) (fun i => a.get i k) := by
+    unfold dotFrom
+    apply sum_congr rfl
+    intro t _
+    simp only [qA1_get]
+    rw [if_neg (by omega)]
+  rw [e]
+  simp only [qA1_get, and_self, if_true]
+  unfold qBeta
+  linear_combination (-1 : K) * hsq
+
+/-- `uᵀ a_k = β` -/
+theorem householder_dot {sqrt : K → K} (hs : SqrtOK sqrt) (n k : Nat) (hk : k < n) (a : Mat K) :
+    dotFrom n k (fun i => (qA1 sqrt n k a).get i k) (fun i => a.get i k) = qBeta sqrt n k a := by
+  have hsq := qAlpha_sq hs n k a
+  rw [dotFrom_head n k hk] at hsq ⊢
+  have e : dotFrom n (k + 1) (fun i => (qA1 sqrt n k a).get i k) (fun i => a.get i k) =
+      dotFrom n (k + 1) (fun i => a.get i k) (fun i => a.get i k) := by
+    unfold dotFrom
+    apply sum_congr rfl
+    intro t _
+    simp only [qA1_get]
+    rw [if_neg (by omega)]
+  rw [e]
+  simp only [qA1_get, and_self, if_true]
+  unfold qBeta
+  linear_combination (-1 : K) * hsq
+
+/-- the matrix the stored data stands for after `k` steps : columns `< k` are those of `R`
+(strict upper part in `a`, diagonal in `rdiag`, zeros below), columns `≥ k` are stored in full -/
+def Tof (k : Nat) (a : Mat K) (rd : Vec K) (i c : Nat) : K :=
+  if c < k then (if i < c then a.get i c else if i = c then rd.get c else 0) else a.get i c
+
+/-- one step of `QRDecomp::exe` applies the reflection to every column of the represented matrix -/
+theorem qrStep_Tof {sqrt : K → K} (hs : SqrtOK sqrt) (n k : Nat) (hk : k < n) (s : QRState K)
+    (hβ : qBeta sqrt n k s.a ≠ 0) (c : Nat) (hc : c < n) (i : Nat) (hi : i < n) :
+    Tof (k + 1) (qrStep sqrt n k s).a (qrStep sqrt n k s).rdiag i c =
+      hrefl n k (fun i => (qrStep sqrt n k s).a.get i k) (qBeta sqrt n k s.a)
+        (fun i' => Tof k s.a s.rdiag i' c) i := by
+  have hu : (fun i => (qrStep sqrt n k s).a.get i k) = fun i => (qA1 sqrt n k s.a).get i k := by
+    funext i; exact qrStep_col sqrt n k hk s i
+  rw [hu]
+  rcases lt_trichotomy c k with hck | hck | hck
+  · -- a finished column: zero on the rows ≥ k, untouched
+    have hd : dotFrom n k (fun i => (qA1 sqrt n k s.a).get i k) (fun i' => Tof k s.a s.rdiag i' c) = 0 := by
+      unfold dotFrom
+      apply sum_eq_zero
+      intro t _
+      have h1 : ¬ (k + t < c) := by omega
+      have h2 : ¬ (k + t = c) := by omega
+      simp only [Tof, if_pos hck, h1, h2, if_false, mul_zero]
+    have ea : (qrStep sqrt n k s).a.get i c = s.a.get i c := by
+      rw [qrStep_a sqrt n k hk, if_neg (by omega), qA1_get, if_neg (by omega)]
+    have er : (qrStep sqrt n k s).rdiag.get c = s.rdiag.get c := by
+      rw [qrStep_rdiag, Vec.get_set, if_neg (by omega)]
+    simp only [hrefl, hd, zero_div, zero_mul, sub_zero, ite_self]
+    simp only [Tof, if_pos (show c < k + 1 by omega), if_pos hck, ea, er]
+  · -- the pivot column becomes alpha e_k
+    subst hck
+    have hw : (fun i' => Tof c s.a s.rdiag i' c) = fun i' => s.a.get i' c := by
+      funext i'; unfold Tof; rw [if_neg (lt_irrefl c)]
+    rw [hw]
+    simp only [hrefl, householder_dot hs n c hk s.a, div_self hβ, one_mul]
+    simp only [Tof, if_pos (show c < c + 1 by omega), qrStep_rdiag, Vec.get_set, if_true,
+      qrStep_col sqrt n c hk, qA1_get]
+    rcases lt_trichotomy i c with h | h | h
+    · have h2 : ¬ i = c := by omega
+      have h3 : ¬ (c ≤ i ∧ i < n) := by omega
+      simp [h, h2, h3]
+    · subst h
+      simp [hi]
+    · have h1 : ¬ i < c := by omega
+      have h2 : ¬ i = c := by omega
+      have h3 : c ≤ i ∧ i < n := ⟨by omega, hi⟩
+      simp [h1, h2, h3]
+  · -- a column to the right is reflected by the inner loops
+    have hw : (fun i' => Tof k s.a s.rdiag i' c) = fun i' => s.a.get i' c := by
+      funext i'; unfold Tof; rw [if_neg (by omega)]
+    rw [hw]
+    have hcol : ∀ r, (qA1 sqrt n k s.a).get r c = s.a.get r c := by
+      intro r; rw [qA1_get, if_neg (by omega)]
+    simp only [Tof, hrefl, if_neg (show ¬ c < k + 1 by omega)]
+    rw [qrStep_a sqrt n k hk]
+    by_cases h1 : k ≤ i ∧ i < n
+    · rw [if_pos ⟨h1, hck, hc⟩, if_pos h1, hcol]
+      simp only [gammaOf, dotFrom, hcol]
+    · rw [if_neg (by tauto), if_neg h1, hcol]
+
+/-! ### triangular back substitution -/
+
+/-- `QRDecomp::back_substitute(v, a, d, e)` returning normally : `R x = v` where `R` has diagonal
+`d` and strict upper part `a`; and no diagonal entry is null -/
+theorem qrBackSubst_spec {n : Nat} {e : K} (he : 0 < e) (a : Mat K) (d v x : Vec K)
+    (h : qrBackSubst n e a d v = some x) :
+    ∀ l, l < n → d.get l ≠ 0 ∧
+      d.get l * x.get l + ∑ j ∈ range (n - (l + 1)), a.get l (l + 1 + j) * x.get (l + 1 + j) = v.get l := by
+  unfold qrBackSubst at h
+  simp only [subFrom_eq] at h
+  have key : ∀ c, c ≤ n → ∀ x : Vec K,
+      forRangeOpt 0 c (fun t (v : Vec K) =>
+        if absT (d.get (n - 1 - t)) < e then none
+        else some (v.set (n - 1 - t)
+          ((v.get (n - 1 - t) - ∑ j ∈ range (n - (n - 1 - t + 1)), a.get (n - 1 - t) (n - 1 - t + 1 + j) *
+            v.get (n - 1 - t + 1 + j)) / d.get (n - 1 - t)))) v = some x →
+      (∀ l, n - c ≤ l → l < n → d.get l ≠ 0 ∧
+        d.get l * x.get l + ∑ j ∈ range (n - (l + 1)), a.get l (l + 1 + j) * x.get (l + 1 + j) = v.get l) ∧
+      (∀ l, l < n - c → x.get l = v.get l) := by
+    intro c
+    induction c with
+    | zero =>
+      intro _ x hx
+      rw [forRangeOpt_zero] at hx
+      cases Option.some.inj hx
+      exact ⟨fun l h1 h2 => by omega, fun l _ => rfl⟩
+    | succ c ih =>
+      intro hc x hx
+      rw [forRangeOpt_succ, Option.bind_eq_some_iff] at hx
+      obtain ⟨z, hz, hx⟩ := hx
+      obtain ⟨i1, i2⟩ := ih (by omega) z hz
+      rw [zero_add] at hx
+      obtain ⟨r, hr⟩ : ∃ r, n - 1 - c = r := ⟨_, rfl⟩
+      rw [hr] at hx
+      split_ifs at hx with hchk
+      cases Option.some.inj hx
+      have hd := ne_zero_of_not_absT_lt he hchk
+      have hs : ∀ l, r ≤ l → ∑ j ∈ range (n - (l + 1)), a.get l (l + 1 + j) *
+          (z.set r ((z.get r - ∑ j ∈ range (n - (r + 1)), a.get r (r + 1 + j) * z.get (r + 1 + j)) / d.get r)).get (l + 1 + j) =
+          ∑ j ∈ range (n - (l + 1)), a.get l (l + 1 + j) * z.get (l + 1 + j) := by
+        intro l hl
+        apply sum_congr rfl
+        intro j _
+        rw [Vec.get_set, if_neg (by omega)]
+      constructor
+      · intro l h1 h2
+        rw [hs l (by omega)]
+        by_cases hlr : l = r
+        · subst hlr
+          refine ⟨hd, ?_⟩
+          rw [Vec.get_set, if_pos rfl, ← i2 l (by omega)]
+          field_simp
+          ring
+        · rw [Vec.get_set, if_neg hlr]
+          exact i1 l (by omega) h2
+      · intro l hl
+        rw [Vec.get_set, if_neg (by omega)]
+        exact i2 l (by omega)
+  intro l hl
+  exact (key n (le_refl _) x h).1 l (by omega) hl
+
+/-! ### the whole decomposition -/
+
+/-- state after `k` steps of `QRDecomp::exe` -/
+def qS (sqrt : K → K) (n : Nat) (A : Mat K) (k : Nat) : QRState K :=
+  forRange 0 k (qrStep sqrt n) { a := A, rdiag := { get := fun _ => 0 }, beta := { get := fun _ => 0 } }
+
+theorem qS_succ (sqrt : K → K) (n : Nat) (A : Mat K) (k : Nat) :
+    qS sqrt n A (k + 1) = qrStep sqrt n k (qS sqrt n A k) := by
+  unfold qS
+  rw [forRange, zero_add]
+
+theorem qrDecomp_eq (sqrt : K → K) (n : Nat) (A : Mat K) : qrDecomp sqrt n A = qS sqrt n A n := rfl
+
+/-- a later step `k'` leaves column `k < k'`, row `k < k'`, `rdiag k` and `beta k` untouched -/
+theorem qrStep_frame (sqrt : K → K) (n k' : Nat) (hk' : k' < n) (s : QRState K) (k : Nat) (hk : k < k') :
+    (∀ r, (qrStep sqrt n k' s).a.get r k = s.a.get r k) ∧
+    (∀ c, (qrStep sqrt n k' s).a.get k c = s.a.get k c) ∧
+    (qrStep sqrt n k' s).rdiag.get k = s.rdiag.get k ∧
+    (qrStep sqrt n k' s).beta.get k = s.beta.get k := by
+  refine ⟨?_, ?_, ?_, ?_⟩
+  · intro r
+    rw [qrStep_a sqrt n k' hk', if_neg (by omega), qA1_get, if_neg (by omega)]
+  · intro c
+    rw [qrStep_a sqrt n k' hk', if_neg (by omega), qA1_get, if_neg (by omega)]
+  · rw [qrStep_rdiag, Vec.get_set, if_neg (by omega)]
+  · rw [qrStep_beta, Vec.get_set, if_neg (by omega)]
+
+theorem qS_stable (sqrt : K → K) (n : Nat) (A : Mat K) (k : Nat) :
+    ∀ d, k + 1 + d ≤ n →
+      (∀ r, (qS sqrt n A (k + 1 + d)).a.get r k = (qS sqrt n A (k + 1)).a.get r k) ∧
+      (∀ c, (qS sqrt n A (k + 1 + d)).a.get k c = (qS sqrt n A (k + 1)).a.get k c) ∧
+      (qS sqrt n A (k + 1 + d)).rdiag.get k = (qS sqrt n A (k + 1)).rdiag.get k ∧
+      (qS sqrt n A (k + 1 + d)).beta.get k = (qS sqrt n A (k + 1)).beta.get k := by
+  intro d
+  induction d with
+  | zero => intro _; exact ⟨fun _ => rfl, fun _ => rfl, rfl, rfl⟩
+  | succ d ih =>
+    intro hd
+    obtain ⟨i1, i2, i3, i4⟩ := ih (by omega)
+    have e : k + 1 + (d + 1) = (k + 1 + d) + 1 := by omega
+    rw [e, qS_succ]
+    obtain ⟨f1, f2, f3, f4⟩ := qrStep_frame sqrt n (k + 1 + d) (by omega) (qS sqrt n A (k + 1 + d)) k (by omega)
+    exact ⟨fun r => (f1 r).trans (i1 r), fun c => (f2 c).trans (i2 c), f3.trans i3, f4.trans i4⟩
+
+/-- the final state holds, for every `k < n`, the Householder vector, `alpha` and `beta` of step `k` -/
+theorem qS_final (sqrt : K → K) (n : Nat) (A : Mat K) (k : Nat) (hk : k < n) :
+    (∀ r, (qS sqrt n A n).a.get r k = (qA1 sqrt n k (qS sqrt n A k).a).get r k) ∧
+    (∀ c, (qS sqrt n A n).a.get k c = (qS sqrt n A (k + 1)).a.get k c) ∧
+    (qS sqrt n A n).rdiag.get k = qAlpha sqrt n k (qS sqrt n A k).a ∧
+    (qS sqrt n A n).beta.get k = qBeta sqrt n k (qS sqrt n A k).a := by
+  obtain ⟨d, hd⟩ : ∃ d, n = k + 1 + d := ⟨n - (k + 1), by omega⟩
+  obtain ⟨i1, i2, i3, i4⟩ := qS_stable sqrt n A k d (by omega)
+  rw [← hd] at i1 i2 i3 i4
+  refine ⟨?_, i2, ?_, ?_⟩
+  · intro r
+    rw [i1 r, qS_succ, qrStep_col sqrt n k hk]
+  · rw [i3, qS_succ, qrStep_rdiag, Vec.get_set, if_pos rfl]
+  · rw [i4, qS_succ, qrStep_beta, Vec.get_set, if_pos rfl]
+
+/-- the right-hand side after the first `k` reflections of `tq_product` -/
+def qC (n : Nat) (a : Mat K) (beta : Vec K) (b : Vec K) (k : Nat) : Vec K :=
+  forRange 0 k (fun c v => householderProduct n a beta c v) b
+
+theorem qC_succ (n : Nat) (a : Mat K) (beta b : Vec K) (k : Nat) (hk : k ≤ n) (i : Nat) :
+    (qC n a beta b (k + 1)).get i =
+      hrefl n k (fun i => a.get i k) (beta.get k) (qC n a beta b k).get i := by
+  unfold qC
+  rw [forRange, zero_add, householderProduct_eq n a beta k hk]
+
+/-- `QRDecomp::exe` + `tq_product` + `back_substitute` : no exception ⇒ `A x = b` -/
+theorem qrSolve_sound {sqrt : K → K} (hs : SqrtOK sqrt) {n : Nat} {e : K} (he : 0 < e)
+    {A : Mat K} {b x : Vec K} (h : qrSolve sqrt n e A b = some x) :
+    ∀ i, i < n → ∑ j ∈ range n, A.get i j * x.get j = b.get i := by
+  unfold qrSolve at h
+  simp only [qrDecomp_eq] at h
+  set SF := qS sqrt n A n with hSF
+  have hR := qrBackSubst_spec he SF.a SF.rdiag (tqProduct n SF.a SF.beta b) x h
+  -- downward induction on the number of reflections undone
+  have key : ∀ d, d ≤ n → ∀ i, i < n →
+      ∑ j ∈ range n, Tof (n - d) (qS sqrt n A (n - d)).a (qS sqrt n A (n - d)).rdiag i j * x.get j =
+        (qC n SF.a SF.beta b (n - d)).get i := by
+    intro d
+    induction d with
+    | zero =>
+      intro _ i hi
+      rw [Nat.sub_zero]
+      have e1 : ∀ j ∈ range n, Tof n SF.a SF.rdiag i j * x.get j =
+          if i = j then SF.rdiag.get j * x.get j else if i < j then SF.a.get i j * x.get j else 0 := by
+        intro j hj
+        have hj' := mem_range.mp hj
+        unfold Tof
+        rw [if_pos hj']
+        rcases lt_trichotomy i j with h1 | h1 | h1
+        · rw [if_pos h1, if_neg (by omega), if_pos h1]
+        · subst h1; simp
+        · rw [if_neg (by omega), if_neg (by omega), if_neg (by omega), if_neg (by omega), zero_mul]
+      rw [sum_congr rfl e1, sum_upper n i hi]
+      exact (hR i hi).2
+    | succ d ih =>
+      intro hd i hi
+      obtain ⟨k, hk⟩ : ∃ k, n - (d + 1) = k := ⟨_, rfl⟩
+      have hk1 : n - d = k + 1 := by omega
+      have hkn : k < n := by omega
+      have ih' := ih (by omega)
+      rw [hk1] at ih'
+      rw [hk]
+      obtain ⟨g1, _, g3, g4⟩ := qS_final sqrt n A k hkn
+      have hα : qAlpha sqrt n k (qS sqrt n A k).a ≠ 0 := by
+        rw [← g3]; exact (hR k hkn).1
+      have hβ : qBeta sqrt n k (qS sqrt n A k).a ≠ 0 := ne_of_gt (qBeta_pos hs n k _ hα)
+      have hu : (fun r => SF.a.get r k) = fun r => (qA1 sqrt n k (qS sqrt n A k).a).get r k := by
+        funext r; exact g1 r
+      apply hrefl_system_sound n k (le_of_lt hkn) (fun r => SF.a.get r k) (SF.beta.get k)
+        (by rw [g4]; exact hβ)
+        (by rw [hu, g4]; exact householder_norm hs n k hkn _)
+        (fun i' j => Tof k (qS sqrt n A k).a (qS sqrt n A k).rdiag i' j) (qC n SF.a SF.beta b k).get x.get
+      · intro i' hi'
+        rw [← qC_succ n SF.a SF.beta b k (le_of_lt hkn), ← ih' i' hi']
+        apply sum_congr rfl
+        intro j hj
+        rw [qS_succ, qrStep_Tof hs n k hkn _ hβ j (mem_range.mp hj) i' hi', g4]
+        congr 2
+        funext r
+        rw [qrStep_col sqrt n k hkn, g1 r]
+      · exact hi
+  intro i hi
+  have := key n (le_refl _) i hi
+  rw [Nat.sub_self] at this
+  rw [← (show (qC n SF.a SF.beta b 0).get i = b.get i from rfl), ← this]
+  apply sum_congr rfl
+  intro j _
+  rfl
 
 end TfelVerif.C07
